@@ -210,6 +210,9 @@ class Ctx:
         if kind == 'atan2':
             y, x = payload
             return math.atan2(self.eval_k(y, env), self.eval_k(x, env))
+        if kind == 'angle':
+            c, sn = payload
+            return math.atan2(self.eval_k(sn, env), self.eval_k(c, env))
         if kind == 'free':
             return env[name]
         raise NotEncodable('no numeric rule for derived atom kind %r' % kind)
@@ -284,12 +287,30 @@ def _mono_mul(a, b):
 # ---------------------------------------------------------------------------------------------
 
 class Sx:
-    __slots__ = ('t', 'ctx', '_h')
+    __slots__ = ('t', 'ctx', '_h', '_np')
 
-    def __init__(self, terms, ctx):
+    def __init__(self, terms, ctx, npflag=False):
         self.t = terms
         self.ctx = ctx
         self._h = None
+        self._np = npflag      # True: behaves like a numpy scalar (has .shape/.ndim), as results of numpy calls do
+
+    # numpy-scalar look-alike attributes: only values that came out of a numpy function (or arithmetic with one) have them,
+    # exactly as python floats lack .shape/.ndim while numpy.float64 has them
+    def _npattr(self, v):
+        if not self._np:
+            raise AttributeError('python-scalar-like symbolic value has no numpy attributes')
+        return v
+
+    shape = property(lambda self: self._npattr(()))
+    ndim = property(lambda self: self._npattr(0))
+    size = property(lambda self: self._npattr(1))
+    dtype = property(lambda self: self._npattr(object))
+
+    def as_np(self):
+        if self._np:
+            return self
+        return Sx(self.t, self.ctx, True)
 
     # -- construction -----------------------------------------------------------------------
     @staticmethod
@@ -380,10 +401,11 @@ class Sx:
         o = self._coerce(o)
         if o is None:
             return NotImplemented
+        npf = self._np or o._np
         if not o.t:
-            return self
+            return self if self._np == npf else Sx(self.t, self.ctx, npf)
         if not self.t:
-            return o
+            return o if o._np == npf else Sx(o.t, o.ctx, npf)
         out = dict(self.t)
         for k, c in o.t.items():
             v = out.get(k)
@@ -395,12 +417,12 @@ class Sx:
                     del out[k]
                 else:
                     out[k] = v
-        return Sx(out, self.ctx)
+        return Sx(out, self.ctx, npf)
 
     __radd__ = __add__
 
     def __neg__(self):
-        return Sx({k: -c for k, c in self.t.items()}, self.ctx)
+        return Sx({k: -c for k, c in self.t.items()}, self.ctx, self._np)
 
     def __pos__(self):
         return self
@@ -422,8 +444,9 @@ class Sx:
         if o is None:
             return NotImplemented
         a, b = self.t, o.t
+        npf = self._np or o._np
         if not a or not b:
-            return Sx({}, self.ctx)
+            return Sx({}, self.ctx, npf)
         ctx = self.ctx
         K0 = ctx.K0
         out = {}
@@ -456,7 +479,7 @@ class Sx:
                         del out[key]
                     else:
                         out[key] = v
-        return Sx(out, ctx)
+        return Sx(out, ctx, npf)
 
     __rmul__ = __mul__
 
@@ -471,7 +494,7 @@ class Sx:
                     r2 -= 1
                     c2 = -c2
                 self.ctx.nonzero_assumed.append(c)
-                return Sx({((), r2, -p): c2}, self.ctx)
+                return Sx({((), r2, -p): c2}, self.ctx, self._np)
         # z real-valued content polynomial or general: try conj trick  1/z = conj(z)/(z conj z) if z*conj z is K-level
         red = reduce_terms(self)
         if red.t is not self.t and len(red.t) <= 1:
@@ -617,6 +640,9 @@ class Sx:
         k = self.as_k()
         if k is None:
             raise NotEncodable('cos of non-field argument')
+        cs = _angle_cos_sin(k, self.ctx)
+        if cs is not None:
+            return Sx.from_k(cs[0], self.ctx)
         ph = k / self.ctx.kpi
         return (Sx.phasor(ph, self.ctx) + Sx.phasor(-ph, self.ctx)) * _HALF
 
@@ -624,6 +650,9 @@ class Sx:
         k = self.as_k()
         if k is None:
             raise NotEncodable('sin of non-field argument')
+        cs = _angle_cos_sin(k, self.ctx)
+        if cs is not None:
+            return Sx.from_k(cs[1], self.ctx)
         ph = k / self.ctx.kpi
         d = Sx.phasor(ph, self.ctx) - Sx.phasor(-ph, self.ctx)
         mi = Sx({((), _HALF, self.ctx.K0): self.ctx.k(Fraction(-1, 2))}, self.ctx)
@@ -987,6 +1016,59 @@ def real_exp(k, ctx):
     return Sx.from_k(g ** int(q), ctx)
 
 
+def _angle_cos_sin(k, ctx):
+    """If k == m * (angle atom) for an integer m, return (cos, sin) of it as K elements, else None."""
+    if not ctx.next_derived or k == 0:
+        return None
+    for name in ctx.derived_names[:ctx.next_derived]:
+        kind, payload = ctx.derived_def[name]
+        if kind != 'angle':
+            continue
+        gi = ctx.gen_index[name]
+        if k.numer.degree(gi) != 1 or k.denom.degree(gi) > 0:
+            continue
+        q = k / ctx.gens[name]
+        if not (q.numer.is_ground and q.denom.is_ground):
+            continue
+        f = _q2f(q.numer.LC) / _q2f(q.denom.LC)
+        if f.denominator != 1:
+            continue
+        m = int(f)
+        c, s_ = payload
+        # (c + i s)^|m| by repeated complex multiplication
+        rc, rs = ctx.K1, ctx.K0
+        for _ in range(abs(m)):
+            rc, rs = rc * c - rs * s_, rc * s_ + rs * c
+        rc = _reduce_sqrt_k(rc, ctx)
+        rs = _reduce_sqrt_k(rs, ctx)
+        return (rc, -rs if m < 0 else rs)
+    return None
+
+
+def new_angle(ctx, cos_k, sin_k):
+    g = ctx.new_derived('angle', (cos_k, sin_k), {})
+    return Sx.from_k(g, ctx)
+
+
+def sx_arcsin(z):
+    """Angle whose sine is z and whose cosine is +sqrt(1 - z^2) (principal branch, |z| <= 1 assumed by the caller)."""
+    ctx = z.ctx
+    k = z.as_k()
+    if k is None:
+        k = reduce_terms(z).as_k()
+    if k is None:
+        raise NotEncodable('arcsin of a non-field value')
+    if k == 0:
+        return Sx.const(0, ctx)
+    # arcsin(sin(angle atom)) == the atom itself when it is a first-quadrant angle: recognise sin payloads
+    for name in ctx.derived_names[:ctx.next_derived]:
+        kind, payload = ctx.derived_def[name]
+        if kind == 'angle' and payload[1] == k and ctx.info.get(name, {}).get('first_quadrant'):
+            return Sx.from_k(ctx.gens[name], ctx)
+    c = k_sqrt(ctx.K1 - k * k, ctx)
+    return new_angle(ctx, c, k)
+
+
 def sx_arctan2(y, x):
     ctx = y.ctx if isinstance(y, Sx) else x.ctx
     y = Sx.const(y, ctx)
@@ -1002,8 +1084,8 @@ def sx_arctan2(y, x):
             if abs(ang - num * math.pi / 4) < 1e-15:
                 return Sx.from_k(ctx.kpi * ctx.k(Fraction(num, 4)), ctx)
         raise NotEncodable('arctan2 of concrete non-special values')
-    g = ctx.new_derived('atan2', (ky, kx), {'lo': -math.pi, 'hi': math.pi})
-    return Sx.from_k(g, ctx)
+    rho = k_sqrt(kx * kx + ky * ky, ctx)
+    return new_angle(ctx, kx / rho, ky / rho)
 
 
 # ---------------------------------------------------------------------------------------------
